@@ -27,7 +27,7 @@ DET = {
  'C14-3': (False, 'C14', '', 'quick', 'hole-vs-hole check goes through relate (not under contract) and the Validation trait (Kani ICE)'),
  'C15-1': (True, 'C15', 'c15_k_line_interpolation', 'quick', ''),
  'C15-2': (True, 'C15', 'c15_k_densify_linestring_max2/4/16', 'quick', ''),
- 'C15-3': (None, 'C15', 'c15_k_line_locate_point', 'quick', 'missed by the first run; harness added afterwards'),
+ 'C15-3': (True, 'C15', 'c15_k_line_locate_point', 'quick', 'missed by the first run; harness added afterwards'),
  'C12-1': (True, 'C12', 'c12_k_best_of_two, c12_k_linestring_with_repeated_last_vertex', 'quick', ''),
  'C12-2': (False, 'C12', '', 'quick', 'interior_point (sweep line) is not under contract'),
  'C12-3': (False, 'C12', '', 'quick', 'sweep::proc is not under contract'),
@@ -44,17 +44,17 @@ DET = {
  'C17-2': (False, 'C17', '', 'quick', 'prepare_geometry bounding rect is not under contract'),
  'C17-3': (False, 'C17', '', 'quick', 'PreparedGeometry::boundary_dimensions is not under contract'),
  'C19-1': (False, 'C19', '', 'quick', 'GeometryCollection::bounding_rect: recursive Geometry delegation does not finish in CBMC'),
- 'C19-2': (None, 'C19', 'c19_k_min_polygon_try_map_error_in_hole', 'quick', 'missed by the first run; harness made tractable (concrete failure index, literal data) afterwards'),
+ 'C19-2': (False, 'C19', '', 'quick', 'missed by the first run; harness c19_k_min_polygon_try_map_error_in_hole was added afterwards, but WITH the seeded change (flat_map over Result) CBMC times out on it, so the check ends UNDECIDED (exit 2), not with a VIOLATION'),
  'C19-3': (False, 'C19', '', 'quick', 'GeometryCollection::exterior_coords_iter: recursive Geometry delegation does not finish in CBMC'),
  'C08-1': (True, 'C08', 'c08_k_quick_hull_menu_0_rot0', 'quick', 'missed by the first run (helpers only); hull contract on literal menus added afterwards'),
  'C08-2': (True, 'C08', 'c08_k_graham_hull_menu_{0,1,5}_rot*', 'quick', 'missed by the first run; hull contract on literal menus added afterwards'),
- 'C08-3': (None, 'C08', 'c08_k_quick_hull_large_i64', 'quick', 'missed by the first two runs; large-i64 literal set added afterwards'),
+ 'C08-3': (True, 'C08', 'c08_k_quick_hull_large_i64', 'quick', 'missed by the first two runs; large-i64 literal set added afterwards'),
  'C10-1': (False, 'C10', '', 'quick', 'monotone sweep is not under contract'),
  'C10-2': (False, 'C10', '', 'quick', 'Delaunay snapping is not under contract'),
  'C10-3': (False, 'C10', '', 'quick', 'monotone builder is not under contract'),
  'C07-1': (False, 'C07', '', 'quick', 'Polygon-Polygon distance (R-tree search, hole branch) is not under contract'),
  'C07-2': (False, 'C07', '', 'quick', 'nearest_neighbour_distance (R-tree) is not under contract'),
- 'C07-3': (None, 'C07', 'c07_k_line_string_contains_point_axis', 'quick', 'missed by the first run; harness added afterwards'),
+ 'C07-3': (True, 'C07', 'c07_k_line_string_contains_point_axis', 'quick', 'missed by the first run; harness added afterwards'),
  'C09-1': (False, 'C09', '', '-', 'C09 is not applicable (no check)'),
  'C09-2': (False, 'C09', '', '-', 'C09 is not applicable (no check)'),
  'C09-3': (False, 'C09', '', '-', 'C09 is not applicable (no check)'),
